@@ -10,7 +10,7 @@ R_THOROUGH = ["cases.tl", "goldmaster.tl", "goldmaster2.tl", "goldmaster3.tl", "
 
 def run_gen(prop, tier, regex, regex_q=None, props=None, optsets=("full",), params_q=None, params_t=None, level="model_checking", f_pattern="*",
             r_quick=(), r_thorough=(), wall_q="8s", wall_t="300s", bounds=None, outside=None, assumptions=(), only=None, max_models_q=6, max_models_t=30,
-            max_paths_q=1200, max_paths_t=60000, hgen_extra=(), ladder=None, prim=None, pkg_harness=None, extra_runs=()):
+            max_paths_q=1200, max_paths_t=60000, hgen_extra=(), ladder=None, prim=None, pkg_harness=None, extra_runs=(), finish=True):
     c = GenCheck(prop, tier, level)
     if tier == "quick" and regex_q:
         regex = regex_q
@@ -49,6 +49,9 @@ def run_gen(prop, tier, regex, regex_q=None, props=None, optsets=("full",), para
     c.assumptions += list(assumptions)
     b = dict(bounds or {})
     b.update(params)
+    if not finish:
+        c._finish_kw = dict(bounds=b, outside=outside or [])
+        return c
     return c.finish(bounds=b, outside=outside or [])
 
 BYTES_BOUNDS = {"input": "arbitrary byte string of symbolic length <= (encoded size of the zero value + slack), capped at maxN"}
